@@ -101,12 +101,12 @@ def main(tier: str, seed: int, opts) -> int:
             sim_abstract.update(r["sim_abstract"])
             if r["verdict"] == "violation":
                 sig = r["signature"]
-                key = (sig["check"], sig.get("exc"), sig.get("faulted"))
+                key = (sig["check"], sig.get("exc"), sig.get("faulted"), "@" in str(job.get("hashseed")))
                 if key in seen or len(seen) >= 4:
                     continue
                 seen.add(key)
                 path = confirm_minimise_report(rep, pool, ENGINE, r["case"], r, f"{seed}-{label.replace(':', '_')}-{idx}",
-                                               candidates=decworld.candidates, func=FUNC, known_keys=known_keys,
+                                               candidates=decworld.candidates, func=FUNC, known_keys=known_keys, hashseed=job.get("hashseed"),
                                                meta={"verif_seed": seed, "stream": label, "run_index": idx, "tier": tier},
                                                budget_evals=800, budget_s=240, limit_s=300)
                 if path:
